@@ -11,6 +11,18 @@ CHECKS = {
     "C05": dict(text="The strict reader lists the faults of C05 present in each string; TLC checks that the transcribed parser refuses every faulty string and returns the demanded class when the fault set is a singleton; the harness requires the same of the real parser (generic and typed), with free class under multiple faults.",
                 design_ref="7 C05", note=NOTE_COMMON, technique=TECH),
 }
+CHECKS.update({
+    "C03": dict(text="TLC compares the transcribed Display (escape sets built by the same .add chains) with a renderer written from the wording of C03 for every ASCII character and 13 non-ASCII representatives (quick) / all 128x128 ASCII pairs (thorough) in each of five component positions, bare and surrounded, plus printable-ASCII and separator-count invariants; every such value is built with the real builder for four type parameters and to_string() must equal TLC's string; values coming from the parser suites are checked the same way.",
+                design_ref="7 C03", note=NOTE_COMMON, technique=TECH),
+    "C04": dict(text="Valid(v) - C04 verbatim in TLA+ - is a TLC invariant of every state of the parser and builder models in which a value exists (build() is modelled as its four steps, and the mutated step orders are shown by TLC to violate it); the harness requires every value the library hands out to equal a value on which TLC evaluated Valid, or records it as an event on which a TLC trace specification evaluates Valid; qualifier retrievability and accessor views are compared on the live objects.",
+                design_ref="7 C04", note=NOTE_COMMON, technique=TECH),
+    "C09": dict(text="Setters are modelled as data (Apply) next to an independent history (Track/Expected: what was last set, when build must succeed, with what); TLC checks faithfulness, override and commutation for all pairs of ops and that the printed form parses back to the built fields modulo insignificant segments; every transition of the bounded builder state graph, every build from every state and simulated call sequences are replayed on real builders (String, Cow, SmallString, PackageType).",
+                design_ref="7 C09", note=NOTE_COMMON, technique=TECH),
+    "C10": dict(text="Rebuild(v) = Ok(v) is a TLC invariant of every accepted / built value of the parser, format and builder models; the harness performs clone().into_builder().build() on every value any case produces, for every type parameter, and requires the identical value and string.",
+                design_ref="7 C10", note=NOTE_COMMON, technique=TECH),
+    "C13": dict(text="The finish implementations of String/Cow::Owned/SmartString and of Cow::Borrowed are transcribed separately and TLC checks they coincide on the type universe; every parse case runs for String and SmallString and every build case / call sequence for String, Cow::Borrowed, Cow::Owned and SmallString, and the observed outcomes (acceptance, error, accessors, string) must be equal across them and to the specification's.",
+                design_ref="7 C13", note=NOTE_COMMON, technique=TECH),
+})
 NOT_YET = {}
 NOTES = ("All checks share one engine: ./check <ID> --tier quick|thorough. Exit 2 means the machinery failed and is never a verdict. "
          "Failures tagged with another property than the one being checked are reported in the evidence (failures_tagged_with_other_properties) and decided by that property's own check.")
